@@ -213,6 +213,24 @@ def weight_function_positive(U, p, w, depth=5):
 
 
 @st.composite
+def unit_weight_function(draw, U, w, extra):
+    """Weights are homogeneous: the same rational object with its weights divided by the value W(u*) of the weight
+    function at one parameter u* that the caller evaluates (``params_of(U, extra)``), so that W(u*) is exactly 1
+    there although the weights are not all 1 (one rational case in four).  "Already normalised" is then true at one
+    evaluated parameter only."""
+    if w is None or draw(st.integers(0, 3)) != 0:
+        return w
+    from . import oracle
+    p = 0
+    while U[p + 1] == U[0]:
+        p += 1
+    u = draw(st.sampled_from(params_of(U, extra)))
+    row = oracle.basis_all(U, p, u)
+    W = sum(F(x) * F(b) for x, b in zip(w, row))
+    return [F(x) / W for x in w] if W > 0 else w
+
+
+@st.composite
 def weight_magnitude(draw, c, wide=False):
     """The same rational curve with all its weights multiplied by a common factor (weights are homogeneous):
     one case in three (one in two over a wider range with ``wide``).  Nothing may depend on that factor."""
